@@ -2,7 +2,7 @@
 
 from __future__ import annotations
 
-from dataclasses import dataclass, field
+from dataclasses import dataclass, field, replace
 from typing import TYPE_CHECKING, Any, TypeVar
 
 from semver import Version
@@ -324,6 +324,17 @@ class Extension:
         Returns:
             The added operation definition, now associated with the extension.
         """
+        if op_def._extension is not None and op_def._extension is not self:
+            # The definition already belongs to another extension: add a copy, so
+            # that the other extension keeps its own definition (owner and
+            # signature requirements) unchanged.
+            op_def = replace(
+                op_def,
+                signature=OpDefSig(op_def.signature.poly_func, op_def.signature.binary),
+                misc=dict(op_def.misc),
+                lower_funcs=list(op_def.lower_funcs),
+            )
+
         if op_def.signature.poly_func is not None:
             # Ensure the op def signature has the extension as a requirement
             op_def.signature.poly_func = op_def.signature.poly_func.with_runtime_reqs(
@@ -343,6 +354,9 @@ class Extension:
         Returns:
             The added type definition, now associated with the extension.
         """
+        if type_def._extension is not None and type_def._extension is not self:
+            # Already owned by another extension: add a copy (see add_op_def).
+            type_def = replace(type_def)
         type_def._extension = self
         self.types[type_def.name] = type_def
         return self.types[type_def.name]
@@ -356,6 +370,12 @@ class Extension:
         Returns:
             The added value, now associated with the extension.
         """
+        if (
+            extension_value._extension is not None
+            and extension_value._extension is not self
+        ):
+            # Already owned by another extension: add a copy (see add_op_def).
+            extension_value = replace(extension_value)
         extension_value._extension = self
         self.values[extension_value.name] = extension_value
         return self.values[extension_value.name]
